@@ -291,6 +291,8 @@ def run(ctx: Ctx):
     col.floor("length_equality_marks", nb, 1)
     # ---- S8 'ref' policy: kept segments and their padded bounds == the documented rule, per option valuation --------
     _ref_policy(ctx, sl)
+    # ---- S9 'fixed' policy: the k-th window and whether it is kept == the documented rule, per option valuation -----
+    _fixed_policy(ctx, sl)
     plumbing(ctx, "S1")
     return dict(
         explanation=(
@@ -299,11 +301,11 @@ def run(ctx: Ctx):
             "under not-retain the token boundaries (positions) are combined with the slice start (a position) by "
             "subtraction [known finding F5: the tree adds]; (S4) containment vs overlap predicates in comparison normal "
             "form against the documented ones; (S5) input/output basenames prefix+id+suffix, every saved chunk cut "
-            "with the length of its own chunker call into its own sub-directory, slicer input by policy; (S6) every "
-            "dimension-naming operation within the known rank on every branch [F11 repaired] and one return arity. NOT decided: that the arange/nonzero/index arithmetic yields the documented windows; "
+            "with the length of its own chunker call into its own sub-directory, slicer input by policy; (S7) lengths marked by equality live in an index range of T + 1 [F21 repaired]; (S8)/(S9) the 'ref' and 'fixed' policies, specialised per option valuation, agree with the documented window / keep rule at every grid point [F24 repaired]; (S6) every "
+            "dimension-naming operation within the known rank on every branch [F11 repaired] and one return arity. NOT decided: the 'ali' policy's nonzero/index arithmetic; "
             "that the chunked directory validates."),
-        decided=["S1", "S2", "S3", "S4", "S5", "S6"],
-        not_decided=["window arithmetic equals the documented policy", "chunked directory is well-formed"],
+        decided=["S1", "S2", "S3", "S4", "S5", "S6", "S7", "S8", "S9"],
+        not_decided=["'ali' policy segment arithmetic", "chunked directory is well-formed"],
         assumptions=["documented predicates (class docstring of ChunkTokenSequencesBySlices) as oracle"],
     )
 
@@ -442,6 +444,116 @@ def _ref_policy(ctx: Ctx, sl):
     col.floor("ref_policy_terms", nterms, 48)
 
 
+def _fixed_policy(ctx: Ctx, sl):
+    """S9: slice_spect_data specialised for policy='fixed' x window type x valid-only x in_lens given?; the k-th
+    generated window (start, end) and the condition under which it is returned, as terms over (T, lobe, len, k), must
+    agree with the documented rule. With in_lens omitted every sequence has length T, so the result must be the one
+    obtained with in_lens = T."""
+    from sa import minmax as MM
+    from sa.defuse import ReachingDefs
+    from sa.specialise import NOT_NONE, specialise
+    from rules.boundary import _is_time_extent_def
+    col = ctx.col
+    rel = sl.module.relname
+    inp = sl.params[0].name
+    n_ob = 0
+    for w in ("symmetric", "causal", "future"):
+        for valid in (True, False):
+            for given in (True, False):
+                known = {"policy": "fixed", "window_type": w, "valid_only": valid, "in_lens": NOT_NONE if given else None}
+                node, folded = specialise(sl.node, known, allow_reassigned=("in_lens",))
+                if folded < 4:
+                    raise AnalysisError(f"C10: only {folded} option tests of slice_spect_data could be folded (fixed policy)")
+                rd = ReachingDefs(node)
+
+                def leaf_of_def(d):
+                    if d.kind == "param":
+                        return {"lobe_size": "B", "in_lens": "L"}.get(d.name)
+                    if _is_time_extent_def(d, inp):
+                        return "T"
+                    return None
+                ex = MM.Extractor(rd, leaf_of_def, lambda e: None)
+                ex.index_leaf = "k"
+                rets = [n for n in ast.walk(node) if isinstance(n, ast.Return) and isinstance(n.value, ast.Tuple)
+                        and len(n.value.elts) == 2 and all(isinstance(x, ast.Name) for x in n.value.elts)]
+                if len(rets) != 1:
+                    raise AnalysisError(f"C10: specialised slice_spect_data (fixed) has {len(rets)} (slices, sources) returns")
+                tag = f"{w},{'valid' if valid else 'any'},{'in_lens' if given else 'no in_lens'}"
+                e = rets[0].value.elts[0]
+                mask = None
+                try:
+                    ds = list(rd.defs_of(e))
+                    if len(ds) != 1:
+                        raise MM.Unknown(f"{len(ds)} definitions of the returned slices")
+                    v = ds[0].value
+                    if isinstance(v, ast.Subscript) and isinstance(v.value, ast.Name):
+                        mask = v.slice
+                        ds = list(rd.defs_of(v.value))
+                        if len(ds) != 1:
+                            raise MM.Unknown("masked slices have several definitions")
+                        v = ds[0].value
+                    while isinstance(v, ast.Call) and isinstance(v.func, ast.Attribute) and v.func.attr in ("flatten", "contiguous"):
+                        v = v.func.value
+                    if not (isinstance(v, ast.Call) and call_name(v) == "torch.stack" and isinstance(v.args[0], (ast.List, ast.Tuple))
+                            and len(v.args[0].elts) == 2):
+                        raise MM.Unknown(f"slices are `{u(v)[:50]}`, not a stack of (starts, ends)")
+                    ts, te = ex.term(v.args[0].elts[0]), ex.term(v.args[0].elts[1])
+                    tm = ex.cond(mask) if mask is not None else None
+                except MM.Unknown as ex_:
+                    n_ob += 3
+                    col.undecided(f"C10: 'fixed' policy [{tag}]: {ex_}")
+                    continue
+                cons = list(ex.constraints)
+                W = (lambda v: 2 * v["B"] + 1) if w == "symmetric" else (lambda v: v["B"] + 1)
+
+                def start(v):
+                    sh = v["B"] + 1
+                    if valid or w == "future":
+                        return v["k"] * sh
+                    if w == "symmetric":
+                        return (v["B"] + 1) // 2 - W(v) // 2 + v["k"] * sh
+                    return -v["B"] + v["k"] * sh
+
+                def end(v): return start(v) + W(v)
+
+                def kept(v):
+                    Lr = v["L"] if given else v["T"]
+                    if valid:
+                        return end(v) <= Lr
+                    mid = start(v) + W(v) // 2 if w == "symmetric" else (end(v) - 1 if w == "causal" else start(v))
+                    return mid < Lr
+
+                def grid():
+                    for T in range(1, 10):
+                        for B in range(0, 4):
+                            for L in (range(0, T + 1) if given else (T,)):
+                                for k in range(0, 11):
+                                    yield dict(T=T, B=B, L=L, k=k)
+                kterm = None
+                for c in cons:
+                    kterm = c if kterm is None else ("and", kterm, c)
+                if tm is not None:
+                    kterm = tm if kterm is None else ("and", kterm, tm)
+                if kterm is None:
+                    n_ob += 3
+                    col.undecided(f"C10: 'fixed' policy [{tag}]: no generating index range found")
+                    continue
+                # bounds only matter for generated windows
+                gen = [g for g in grid() if MM.evc(kterm, g) or kept(g)]
+                for key, term, spec, txt in (("start", ts, start, "k * (lobe + 1) plus the documented initial offset"),
+                                             ("end", te, end, "start + window size"),
+                                             ("kept", kterm, kept, "fits fully (valid-only) / middle index before the end of the sequence")):
+                    n_ob += 1
+                    env, g_, w_, n = MM.counterexample(term, spec, gen if key != "kept" else grid())
+                    shown = MM.showc(term) if MM.is_cond(term) else MM.show(term)
+                    col.ob("G12", "S9", f"{rel}::slice_spect_data::fixed-policy[{tag}]::{key}", env is None and n > 0,
+                           f"under policy='fixed' [{tag}] the k-th window's {key} is `{shown[:260]}`; the documentation "
+                           f"requires {txt} (with in_lens omitted, the result for in_lens = T); they differ e.g. at {env}: "
+                           f"{g_} vs {w_}", rel, rets[0].lineno, sample=dict(term=shown[:200], grid_points=n))
+    col.count("fixed_policy_terms", n_ob)
+    col.floor("fixed_policy_terms", n_ob, 36)
+
+
 def pm_of(f):
     pm = getattr(f, "_pm", None)
     if pm is None:
@@ -490,6 +602,10 @@ def _mutants():
         M("length-inferred-from-padded-end", F, "other_lens = ends.gather(1,", "other_lens = (ends + lobe_size).gather(1,", "ref-policy"),
         M("empty-slices-kept", F, "mask = mask & (starts < ends)", "mask = mask & (starts <= ends)", "ref-policy"),
         M("ali-boundary-in-position-space", F, "arange = torch.arange(T + 1, device=device)", "arange = torch.arange(T, device=device)", "length-marked-in-boundary-space"),
+        M("fixed-symmetric-count-includes-T", F, "TT = (T - half_shift + shift - 1) // shift", "TT = (T + half_shift) // shift", "fixed-policy[symmetric,any,no in_lens]::kept"),
+        M("fixed-valid-one-window-short", F, "starts = torch.arange(0, max(T - window_size + 1, 0), shift, device=device)", "starts = torch.arange(0, max(T - window_size, 0), shift, device=device)", "fixed-policy[symmetric,valid"),
+        M("fixed-causal-offset", F, "starts = torch.arange(-lobe_size, T - lobe_size, shift, device=device)", "starts = torch.arange(-lobe_size, T, shift, device=device)", "fixed-policy[causal,any"),
+        M("fixed-causal-middle-is-start", F, "starts = torch.arange(-lobe_size, T - lobe_size, shift, device=device)\n            ends = starts + shift\n            mids = ends - 1", "starts = torch.arange(-lobe_size, T - lobe_size, shift, device=device)\n            ends = starts + shift\n            mids = starts", "fixed-policy[causal,any,in_lens]::kept"),
         M("twin:commuted-conjunction", F, "mask = mask & (starts < ends)", "mask = (starts < ends) & mask", "", twin=True),
         M("twin:lobe-subtracted-by-negation", F, "starts = starts - lobe_size", "starts = starts + -lobe_size", "", twin=True),
     ]
@@ -497,7 +613,7 @@ def _mutants():
 
 def selftest(ctx: Ctx):
     from selftest.mutate import run_selftest
-    return run_selftest("C10", ctx.pkg.repo, _mutants(), floor=20)
+    return run_selftest("C10", ctx.pkg.repo, _mutants(), floor=24)
 
 
 MANIFEST = dict(
@@ -511,9 +627,12 @@ MANIFEST = dict(
         "valid-only / other_lens given, and the returned bounds and keep-mask, extracted as min/max-linear terms over "
         "(start, end, lobe, len, other_len), are compared with the documented rule at every point of a finite grid; a "
         "boundary-vs-position rule requires an index range of T + 1 wherever a length is marked by equality. "
-        "Necessary conditions of C10; the 'fixed' and 'ali' window arithmetic is not decided."),
+        "The 'fixed' policy is treated the same way: the k-th generated window and the condition under which it is "
+        "returned, as terms over (T, lobe, len, k), for the 12 valuations of window type / valid-only / in_lens given "
+        "(omitted lengths must mean 'every sequence has length T'). Necessary conditions of C10; the 'ali' segment "
+        "arithmetic (nonzero / index tensors) is not decided."),
     level_note="Trusted: python ast; torch rank semantics of the closed transformer set in rules/rank.py. F11 (gather on "
-               "a rank-1 column) and F21 (the 'ali' policy raised whenever a sequence fills the time axis) were found and repaired; F5 (boundaries shifted by "
+               "a rank-1 column), F21 (the 'ali' policy raised whenever a sequence fills the time axis) and F24 (an extra 'fixed' symmetric window when in_lens is omitted) were found and repaired; F5 (boundaries shifted by "
                "+ slice start) is a known finding because tests/test_feats.py encodes the same arithmetic.",
     technique="static analysis: known-rank abstract interpretation, kind checking of positions/boundaries, partial evaluation + min/max-linear term comparison with the documented rule, comparison normal forms, literal-table agreement",
     design_ref="DESIGN.md section 4 C10, section 3 G19/G14",
